@@ -106,6 +106,17 @@ def make_pair(rng, kind):
                 base = r['atoms'][1][2]
                 r['atoms'] = r['atoms'][:4] + [(nm, el, (round(base[0] + 0.7 * j, 3), round(base[1] - 1.5 - 0.9 * j, 3), round(base[2] + 0.3 * j, 3)))
                                               for j, (nm, el) in enumerate(cg.SIDE)]
+    elif kind == 'flip':
+        # reference chains nearly equal in atom count; the decoy loses atoms of the LARGER chain only, so that every count taken
+        # on the decoy (atoms, common backbone atoms) ranks the chains the other way round
+        n = rng.randint(4, 7)
+        ref = cg.make_complex(rng, nA=n, nB=n)
+        big = rng.choice(['A', 'B'])
+        for r in ref.residues:
+            base = r['atoms'][1][2]
+            r['atoms'] = r['atoms'][:4] + [('CB', 'C', (round(base[0] + 0.4, 3), round(base[1] + (1.4 if r['chain'] == 'A' else -1.4), 3), round(base[2] + 0.3, 3)))]
+        first_big = next(r for r in ref.residues if r['chain'] == big)
+        first_big['atoms'].append(('CG', 'C', tuple(round(v + 0.9, 3) for v in first_big['atoms'][4][2])))   # one atom more in the bigger chain
     elif kind == 'negative':
         ref = cg.make_complex(rng, numbering='negative')
     else:
@@ -118,6 +129,15 @@ def make_pair(rng, kind):
         dec = cg.rigid_move(rng, dec, which=rng.choice(['all', 'B']))
     if kind == 'incomplete':
         dec = cg.delete_some(rng, dec, n_res=rng.randint(1, 2), n_atoms=rng.randint(0, 2))
+    if kind == 'flip':
+        big = max(ref.chains(), key=lambda c: sum(len(r['atoms']) for r in ref.residues if r['chain'] == c))
+        mode = rng.choice(['side', 'backbone', 'residue'])
+        cand = [r for r in dec.residues if r['chain'] == big]
+        if mode == 'residue':
+            dec.residues.remove(rng.choice(cand[1:-1] or cand))
+        else:
+            for r in rng.sample(cand, min(len(cand), 3)):
+                r['atoms'] = [a for a in r['atoms'] if a[0] != ('O' if mode == 'backbone' else 'CB') and a[0] != 'CG']
     return ref, dec
 
 
@@ -125,8 +145,8 @@ def extra_checks(ctx):
     rng = ctx.rng
     res = []
     d = ctx.tmpdir()
-    n = ctx.scale(21, 140)
-    kinds = ['plain', 'equal', 'rankflip', 'negative', 'incomplete', 'mirror', 'mirror']
+    n = ctx.scale(27, 180)
+    kinds = ['plain', 'equal', 'rankflip', 'negative', 'incomplete', 'mirror', 'mirror', 'flip', 'flip']
     compared = discards = 0
     for k in range(n):
         kind = kinds[k % len(kinds)]
